@@ -481,7 +481,13 @@ func TestCampaignCorpus(t *testing.T) {
 }
 
 // matchKnown: C05-xml-space-preserve needs xml:space="preserve" in the source and a failure about that attribute or about text whitespace.
+var reDotExponent = regexp.MustCompile(`[0-9]\.[eE][-+]?[0-9]`)
+
 func matchKnown(c Case, err error) string {
+	// 1.e0: digits, dot, exponent - a number of the path grammar that the lexer of the dependency splits after the dot
+	if err != nil && reDotExponent.MatchString(c.Src) && (strings.Contains(err.Error(), "geometry changed") || strings.Contains(err.Error(), "<path d>") || strings.Contains(err.Error(), "not valid")) {
+		return "C05-number-dot-exponent"
+	}
 	if err != nil && reSmoothAfterCurve.MatchString(c.Src) && (strings.Contains(err.Error(), "geometry changed") || strings.Contains(err.Error(), "<path d>")) {
 		return "C05-smooth-after-degenerate-curve"
 	}
